@@ -117,10 +117,10 @@ def generate(res):
 VOCAB = {
     "SSML": {"break": {"time": r"\d+ms"}, "prosody": {"pitch": r"-?\d+(\.\d+)?%", "rate": r"\d+(\.\d+)?%", "volume": r"-?\d+(\.\d+)?db"},
              "audio": {"src": r"[^'\"<>]+"}, "voice": {"required": r"[^<>]+"}, "say-as": {"interpret-as": r"characters"},
-             "phoneme": {"alphabet": r"ipa", "ph": r"[^'\"<>]*"}, "mark": {"name": r"[^'\"<> ]+"}},
+             "phoneme": {"alphabet": r"ipa", "ph": r"[^'\"<>]*"}, "mark": {"name": r"[^'\"<>]+"}},
     "SAPI5": {"silence": {"msec": r"\d+ms"}, "pitch": {"middle": r"-?\d+"}, "rate": {"speed": r"-?\d+(\.\d+)?"},
               "volume": {"level": r"-?\d+(\.\d+)?"}, "voice": {"required": r"[^<>]+"}, "spell": {}, "pron": {"sym": r"[^'\"<>]*"},
-              "bookmark": {"mark": r"[^'\"<> ]+"}},
+              "bookmark": {"mark": r"[^'\"<>]+"}},
 }
 ATTR_RE = re.compile(r"""\s+([A-Za-z][\w:-]*)=(?:'([^'<]*)'|"([^"<]*)")""")
 
@@ -215,11 +215,27 @@ CAP_EXPRS = [
 PREF_OF_CMD = {"pitch": ["CapitalLetters_Pitch", "Pitch"], "rate": ["MathRate", "Rate"], "volume": ["Volume"], "pause": ["PauseFactor"]}
 
 
+AUTHOR_IDS = ["x", "a", "A", "+", "mjx-eqn:2", "term(2)", "n#3", "i d", "&#xE9;", "1", "M0-1", "id"]
+
+
+def with_ids(body, rng):
+    """author ids of the kinds found in real documents (one letter, punctuation, blanks, non-ASCII) on some elements"""
+    pool = list(AUTHOR_IDS)
+    rng.shuffle(pool)
+
+    def f(m):
+        if pool and rng.random() < 0.5:
+            return "<%s id='%s'%s" % (m.group(1), pool.pop(), m.group(2))
+        return m.group(0)
+    return re.sub(r"<(mi|mn|mo|mrow|mfrac|msup|msqrt)((?:\s[^<>]*)?>)", f, body)
+
+
 def speech_oracle(res, rng, extra_prefs=()):
     for p in extra_prefs:
         if p not in PREF_SETS:
             PREF_SETS.append(p)
     bodies = list(X.FIXED) + CAP_EXPRS
+    bodies += [with_ids(b, rng) for b in list(X.FIXED[:8]) + CAP_EXPRS[:2]]
     n = 12 if res.tier == "quick" else 150
     bodies += [X.gen(rng, 3) for _ in range(n)]
     sessions, meta = [], []
